@@ -825,6 +825,7 @@ pub fn c09(tier: &str) -> ! {
     run_families(&mut rep, c09_seq_families(tier), b.mul_f32(0.7), is_c09_clause);
     if t {
         run_sched(&mut rep, "liveness/p2d4", &c09_programs(), (2, 4), 16, false, 2, Duration::from_secs(1500), is_c09_clause);
+        run_sched(&mut rep, "two-manual-compactions/p2d4", &c09_manual_compaction_programs(), (2, 4), 16, false, 2, Duration::from_secs(900), is_c09_clause);
         run_sched(&mut rep, "liveness-under-fault/p2d4", &c09_fault_programs(), (2, 4), 16, false, 2, Duration::from_secs(900), is_c09_clause);
     } else {
         run_sched(&mut rep, "liveness/p1d3", &c09_programs(), (1, 3), 4, false, 1, Duration::from_secs(15), is_c09_clause);
